@@ -122,6 +122,15 @@ def check_case(ctx, cs):
             ok2, r2 = _call(ctx, "knotvector.check", tg, small, knotvector.check, p, r, nc)
             if ok2 and r2 is not True:
                 ctx.violate("knotvector.check", tg + ["generated"], small, {"expected": True, "got": r2})
+            # the returned list belongs to the caller: editing it must not change what a later call returns
+            try:
+                r[len(r) // 2] = 99.0
+                r.append(7.0)
+            except Exception:
+                pass
+            ok3, r3 = _call(ctx, "knotvector.generate", tg + ["second_call"], small, knotvector.generate, p, nc, clamped=cl)
+            if ok3 and not close_seq(r3, frv(o["U"])):
+                ctx.violate("knotvector.generate", tg + ["second_call"], small, {"expected": fl(frv(o["U"])), "got": r3})
     elif op == "normalize":
         W = fl(frv(o["U"]))
         small = {"U": o["U"]}
@@ -129,6 +138,14 @@ def check_case(ctx, cs):
         ok, r = _call(ctx, "knotvector.normalize", tags, small, knotvector.normalize, W)
         if ok and not close_seq(r, frv(o["norm"])):
             ctx.violate("knotvector.normalize", tags, small, {"expected": fl(frv(o["norm"])), "got": r})
+        if ok:
+            try:
+                r[0] = -5.0
+            except Exception:
+                pass
+            ok, r = _call(ctx, "knotvector.normalize", tags + ["second_call"], small, knotvector.normalize, W)
+            if ok and (not close_seq(r, frv(o["norm"])) or W != fl(frv(o["U"]))):
+                ctx.violate("knotvector.normalize", tags + ["second_call"], small, {"expected": fl(frv(o["norm"])), "got": r})
     elif op == "check":
         W = fl(frv(o["U"]))
         small = {"p": p, "U": o["U"], "nc": o["nc"], "variant": o["variant"]}
